@@ -12,7 +12,7 @@ import (
 )
 
 func c11(c *h.Ctx) {
-	c.Rule = "in-process real scheduler + TaskRunner: producers `cat` prepared files (empty, no trailing newline, multi-line, UTF-8, up to 64 KiB, random printable) over 1..3 commands x 0..2 variations, task names over printable ASCII, with/without exportAs, optional allowed failure; 1..3 consumers (directly or through an intermediate stage) dump the derived variable with printenv; .Output chaining; plus recorded call/return histories of producer(write)/consumer(read) runs on two shared variable names checked with porcupine against a per-key register; race-detector pass. non-trivial = distinct (name, sizes, arrangement) cases and histories with >=6 operations"
+	c.Rule = "in-process real scheduler + TaskRunner: producers `cat` prepared files (empty, no trailing newline, multi-line, UTF-8, up to 64 KiB, random printable) over 1..3 commands x 0..4 variations, task names over printable ASCII, with/without exportAs, optional allowed failure; 1..3 consumers (directly or through an intermediate stage) dump the derived variable with printenv; .Output chaining; plus recorded call/return histories of producer(write)/consumer(read) runs on two shared variable names checked with porcupine against a per-key register; race-detector pass. non-trivial = distinct (name, sizes, arrangement) cases and histories with >=6 operations"
 	c.Assumptions = []string{"stderr is not part of the captured output", "names whose derived variable collides with another task's are not generated in the exactness part (collisions are what the history part is about)", "porcupine checker timeout (60 s) counts as inconclusive"}
 	anchors := []string{"pkg/runner/runner.go", "pkg/output/output.go", "pkg/executor/executor.go", "pkg/scheduler/scheduler.go", "pkg/variables/variables.go"}
 	runWorkers(c, workerOpts{Mode: "output", Shards: 8, Timeout: 20 * time.Minute})
@@ -91,6 +91,19 @@ func c11cli(c *h.Ctx) {
 			argv = []string{"-o", "prefixed"}
 			content = "short\n" + long[:2000] + "\x1b[31m" + long[2000:] + "\x1b[0m tail\nlast\n"
 			h.WriteFile(real+"/content", content)
+		}
+		if i%6 == 3 {
+			// one very long line without a line break, written in ONE piece by a builtin of the interpreter (a program
+			// would be copied through in smaller chunks), at and beyond 64 KiB (below the 128 KiB the kernel accepts for one environment string), raw and prefixed
+			content = strings.Repeat("0123456789abcdef", 4096+[]int{0, 30, 2000}[(i/6)%3])
+			if (i/18)%2 == 1 {
+				content = content[:len(content)-1]
+			}
+			h.WriteFile(real+"/content", content)
+			prod.Set("command", []interface{}{"printf '%s' \"$(cat '" + real + "/content')\""})
+			cfg.Set("tasks", gen.OM{{K: name, V: prod}, {K: "the-consumer", V: cons}})
+			argv = []string{"-o", []string{"prefixed", "raw"}[(i/6)%2]}
+			c.Count("single_write_long_line_cases", 1)
 		}
 		var env []string
 		switch r.Intn(6) {
